@@ -136,8 +136,14 @@ func (res *relayEntrySubmitter) waitForSubmissionEligibility(
 		big.NewInt(int64(groupSize)),
 	).Uint64()
 
+	// Member indexes are 1-based ([1, groupSize]) while the first submitter
+	// index and the submission queue positions are 0-based
+	// ([0, groupSize-1]). Convert the member index before computing its
+	// position, otherwise the last member gets position groupSize (i.e. the
+	// relay entry timeout block) whenever the entry is divisible by
+	// groupSize.
 	submissionQueueIndex := calculateSubmissionQueueIndex(
-		uint64(res.index),
+		uint64(res.index)-1,
 		firstSubmitterMemberIndex,
 		uint64(groupSize),
 	)
